@@ -18,8 +18,9 @@ theorem klatt_roundtrip_clean (xmin xmax : Txt) (secs : List WSec) (hw : File.Wr
 /-- **(e) `klatt_roundtrip`** — save, then open: `_openNormalKlattgrid (Klattgrid.save tree)` returns the
 tree's sections in order — names, hierarchy (container → intermediate → sub tiers), spans, every point's
 number and value — where each point numeral `n` comes back as `cz n`: the same string, except that a
-zero-valued non-integer literal (`0.0`, `-0.0`, `0e0`) comes back as `0` (`_cleanNumericValues`; for
-`-0.0` this is the loss of the sign of zero recorded as known finding C19-negzero).
+zero-valued literal which `int()` rejects comes back as `0` (`0.0`, `0e0`, `.0`) or, when it starts with a
+minus sign, as `-0` (`-0.0`, `-0e0`) — `_cleanNumericValues`; both read back as the same float including
+the sign of zero (`cz_zero_forms`; before /repo commit bd8eb8f `-0.0` came back as `0`).
 
 Hypotheses, all about the tree that is saved: `File.WriterOk` (what the writer/cleaner proof needs: names
 without `=`/newline, non-empty stripped one-line span numerals, point numerals without `=`, "min", "max"),
@@ -33,8 +34,28 @@ theorem klatt_roundtrip (xmin xmax : Txt) (secs : List WSec) (hw : File.WriterOk
     openNormal (fileText xmin xmax secs) = .ok (secs.map fun w => cleanSec w.sec) :=
   klatt_roundtrip_clean xmin xmax secs hw (Read.readOk_clean xmin xmax secs hr hp)
 
-/-- the numeral-level face of known finding C19-negzero -/
-theorem cz_negzero : cz (t "-0.0") = t "0" ∧ cz (t "0.0") = t "0" ∧ cz (t "0") = t "0" := by decide
+/-- what `cz` does to the zero forms: the sign of a negative zero is kept (former known finding C19-negzero) -/
+theorem cz_zero_forms : cz (t "-0.0") = t "-0" ∧ cz (t "0.0") = t "0" ∧ cz (t "0") = t "0" ∧ cz (t "-0") = t "-0" ∧
+    cz (t "-0e0") = t "-0" := by decide
+
+/-- `cz` changes a numeral only into `0` or `-0`, the latter only when the numeral starts with `-` -/
+theorem cz_spec (n : Txt) : cz n = n ∨ (cz n = t "0" ∧ n.head? ≠ some '-' ∧ fclass n = some FClass.zero) ∨
+    (cz n = t "-0" ∧ n.head? = some '-' ∧ fclass n = some FClass.zero) := by
+  unfold cz
+  split
+  · exact Or.inl rfl
+  · split
+    · rename_i hz
+      unfold zeroForm
+      split
+      · exact Or.inr (Or.inr ⟨rfl, rfl, hz⟩)
+      · rename_i hne
+        refine Or.inr (Or.inl ⟨rfl, ?_, hz⟩)
+        intro hh
+        cases n with
+        | nil => simp at hh
+        | cons c cs => simp at hh; subst hh; exact hne cs rfl
+    · exact Or.inl rfl
 
 /-! ## non-vacuity: a small complete file -/
 
@@ -45,7 +66,7 @@ def exFile : List WSec :=
    ⟨.tier ⟨t "gain", t "0", t "1", []⟩, none⟩]
 
 #guard fileText (t "0") (t "1") exFile =
-  t "File type = \"ooTextFile\"\nObject class = \"KlattGrid\"\n\nxmin = 0\nxmax = 1\nphonation? <exists>\nxmin = 0\nxmax = 1\npitch? <exists>\nxmin = 0\nxmax = 1\npoints: size = 2\npoints [1]:\n    number = 0.5\n    value = 0\npoints [2]:\n    number = 0.75\n    value = 55\noral_formants? <exists>\nxmin = 0\nxmax = 1\nformants: size = 2\nformants [1]:\n    xmin = 0\n    xmax = 1\n    points: size = 1\n    points [1]:\n        number = 0.5\n        value = 55\nformants [2]:\n    xmin = 0\n    xmax = 1\n    points: size = 0\nbandwidths: size = 1\nbandwidths [1]:\n    xmin = 0\n    xmax = 1\n    points: size = 1\n    points [1]:\n        number = 0.25\n        value = 60\ngain? <exists>\nxmin = 0\nxmax = 1\npoints: size = 0\n"
+  t "File type = \"ooTextFile\"\nObject class = \"KlattGrid\"\n\nxmin = 0\nxmax = 1\nphonation? <exists>\nxmin = 0\nxmax = 1\npitch? <exists>\nxmin = 0\nxmax = 1\npoints: size = 2\npoints [1]:\n    number = 0.5\n    value = -0\npoints [2]:\n    number = 0.75\n    value = 55\noral_formants? <exists>\nxmin = 0\nxmax = 1\nformants: size = 2\nformants [1]:\n    xmin = 0\n    xmax = 1\n    points: size = 1\n    points [1]:\n        number = 0.5\n        value = 55\nformants [2]:\n    xmin = 0\n    xmax = 1\n    points: size = 0\nbandwidths: size = 1\nbandwidths [1]:\n    xmin = 0\n    xmax = 1\n    points: size = 1\n    points [1]:\n        number = 0.25\n        value = 60\ngain? <exists>\nxmin = 0\nxmax = 1\npoints: size = 0\n"
 
 #guard (match openNormal (fileText (t "0") (t "1") exFile) with
         | .ok r => decide (r = exFile.map fun w => cleanSec w.sec) | .error _ => false)
@@ -64,7 +85,7 @@ set_option exponentiation.threshold 2000 in
 set_option maxRecDepth 100000 in
 theorem exFile_clean : exFile.map cleanWSec =
     [⟨.tier ⟨t "phonation", t "0", t "1", []⟩, none⟩,
-     ⟨.tier ⟨t "pitch", t "0", t "1", [(t "0.5", t "0"), (t "0.75", t "55")]⟩, none⟩,
+     ⟨.tier ⟨t "pitch", t "0", t "1", [(t "0.5", t "-0"), (t "0.75", t "55")]⟩, none⟩,
      ⟨.cont (t "oral_formants") exIts, some (t "0", t "1")⟩,
      ⟨.tier ⟨t "gain", t "0", t "1", []⟩, none⟩] := by decide +kernel
 
@@ -81,14 +102,14 @@ theorem exFile_readOk : Read.ReadOk (t "0") (t "1") (exFile.map cleanWSec) := by
       intro q hq
       simp only [List.mem_cons, List.not_mem_nil, or_false] at hq
       rcases hq with rfl | rfl
-      · exact ⟨f05, f0⟩
+      · exact ⟨f05, Read.fnumeral_negzero⟩
       · exact ⟨f075, f55⟩
     · refine ⟨by decide, ⟨t "0", t "1", rfl, f0, f1⟩, exIts_shape2, by decide, ?_⟩
       decide
     · exact ⟨by decide, by decide, by decide, by decide, by decide, f0, f1, (by intro q hq; cases hq), (by decide)⟩
   · exact ⟨_, List.mem_cons_of_mem _ (List.mem_cons_self), by decide⟩
 
-/-- the whole-file round trip on the example: the `-0.0` comes back as `0`, everything else verbatim -/
+/-- the whole-file round trip on the example: the `-0.0` comes back as `-0`, everything else verbatim -/
 example : openNormal (fileText (t "0") (t "1") exFile) = .ok (exFile.map fun w => cleanSec w.sec) :=
   klatt_roundtrip_clean _ _ _ exFile_writerOk exFile_readOk
 
